@@ -66,6 +66,11 @@ def _removeUltrashortIntervals(
                 newEntries.append(Interval(start, end, label))
             j += 1
 
+    # Special case: every interval was ultra-short. An interval tier
+    # needs at least one interval, so keep a single blank one
+    if len(newEntries) == 0 and len(tier["entries"]) > 0:
+        newEntries.append(Interval(minTimestamp, tier["entries"][-1][1], ""))
+
     # Next, shift near equivalent tiny boundaries
     # This will link intervals that were connected by an interval
     # that was shorter than minLength
